@@ -131,7 +131,8 @@ class C02(EngineACheck):
 
         out = RunOutcome()
         out.probe("file_family_histories")
-        root = os.path.join(schedsim.scratch_dir(), "c02files")
+        os.chdir(schedsim.scratch_dir())  # relative paths: same hashes in every process
+        root = "c02files"
         shutil.rmtree(root, ignore_errors=True)
         os.makedirs(os.path.join(root, "ind"))
         proglib.CLOCK[0] = 1_700_000_000.0
@@ -230,13 +231,13 @@ class C02(EngineACheck):
                                  and got[1][1][i] != want[1][1][i]] if got[0] == "v" else []
                         out.violate("C02.equals_uncached", sig,
                                     {"step": step, "history": history, "items": [
-                                        x.replace(root, "") for x in items],
+                                        x.replace(root + "/", "") for x in items],
                                      "got": repr(got)[:300], "uncached": repr(want)[:300]})
                         break
         finally:
             shutil.rmtree(root, ignore_errors=True)
         if last_w is not None:
-            out.sample = {"t0": [x.replace(root, "") for x in items], "history": history,
+            out.sample = {"t0": [x.replace(root + "/", "") for x in items], "history": history,
                           "schedule_events": [e[2:] for e in last_w.log[:40]]}
             out.key = f"{out.key}/{len(history)}"
         return out
